@@ -137,12 +137,19 @@ impl Monitor for C13 {
         "cases = valid v2 headers (all 24 control pairs, distinct non-palindromic address bytes, TLV sections empty / well-formed / truncated / overrunning / random, payloads up to 65535 bytes incl. exactly 65535, with and without trailing bytes); each is parsed and rebuilt through the builder from (a) control bytes + address_bytes() + tlv_bytes(), (b) the decoded TLV items (write_payloads, write_tlv) when the section is well-formed, (c) the TLV iterator as a payload, fresh and after having been advanced / exhausted, (d) the decoded address value (with_addresses; write_payload) when a family is specified; every rebuild must equal the original header bytes; non-trivial = header with a payload; distinct = distinct headers"
     }
     fn streams(&self, tier: Tier) -> Vec<StreamSpec> {
-        vec![stream("c13-valid", tier.n(40, 800_000, 25_000_000)), stream("c13-pairs", tier.n(24, 48_000, 2_400_000))]
+        let mut s = vec![stream("c13-valid", tier.n(40, 800_000, 25_000_000)), stream("c13-pairs", tier.n(24, 48_000, 2_400_000))];
+        if tier != Tier::Miri {
+            // every value of each 16-bit word of IPv4 / IPv6 blocks, each byte of Unix blocks
+            s.push(spec::engine::exhaustive("v2-sweep", spec::v2::sweep_count()));
+        }
+        s
     }
     fn run_case(&self, stream: &str, idx: u64, seed: u64, rec: &mut Recorder) {
         let mut rng = Rng::for_case(seed, stream_id(stream), idx);
         let mut b = Vec::new();
-        if stream == "c13-pairs" {
+        if stream == "v2-sweep" {
+            spec::v2::sweep_case(idx, &mut rng, &mut b);
+        } else if stream == "c13-pairs" {
             let (vc, fp) = valid_ctl(idx);
             valid_header_with(&mut rng, &mut b, vc, fp);
         } else {
